@@ -106,13 +106,56 @@ def gen_code_spec(rng: random.Random, families: Optional[List[str]] = None) -> d
     raise ValueError(fam)
 
 
+def sibling_spec(rng: random.Random, spec: dict) -> Optional[dict]:
+    """Another code whose encoder has the same class and the same (n, k) but is a different code or layout:
+    used to build 'an earlier, similar object' in the same process before the object under test."""
+    fam = spec["family"]
+    sib = dict(spec)
+    if fam in ("hamming", "bch", "golay", "reed_solomon", "cyclic") and isinstance(spec.get("information_set"), str):
+        if fam == "cyclic" and rng.random() < 0.5:
+            alt = {(7, 0b1011): 0b1101, (7, 0b1101): 0b1011, (15, 0b10011): 0b11001, (15, 0b11001): 0b10011}.get((spec["n"], spec["g"]))
+            if alt:
+                sib["g"] = alt
+                return sib
+        sib["information_set"] = "right" if spec["information_set"] == "left" else "left"
+        return sib
+    if fam == "hamming" and isinstance(spec.get("information_set"), list):
+        sib["information_set"] = "left"
+        return sib
+    if fam == "linear":
+        k, n = len(spec["G"]), len(spec["G"][0])
+        sib["G"] = _rand_fullrank(rng, k, n)
+        return sib if sib["G"] != spec["G"] else None
+    if fam == "systematic":
+        k, m = len(spec["P"]), len(spec["P"][0])
+        sib["P"] = [[rng.randrange(2) for _ in range(m)] for _ in range(k)]
+        return sib if sib["P"] != spec["P"] else None
+    if fam == "ldpc":
+        m, n = len(spec["H"]), len(spec["H"][0])
+        sib["H"] = _rand_sparse_H(rng, m, n)
+        return sib if sib["H"] != spec["H"] else None
+    if fam == "polar":
+        sib["frozen_zeros"] = not spec["frozen_zeros"]
+        return sib
+    return None
+
+
 _ENC_CACHE: Dict[str, Any] = {}
 _DEC_CACHE: Dict[str, Any] = {}
 _MISC_CACHE: Dict[str, Any] = {}
 
 
-def build_encoder(spec: dict):
+def build_encoder(spec: dict, fresh: bool = False):
     key = core.cjson(spec)
+    if fresh:
+        saved = _ENC_CACHE.pop(key, None)
+        try:
+            return build_encoder(spec)
+        finally:
+            if saved is not None and not isinstance(saved, Exception):
+                _ENC_CACHE[key] = saved
+            else:
+                _ENC_CACHE.pop(key, None)
     if key in _ENC_CACHE:
         v = _ENC_CACHE[key]
         if isinstance(v, Exception):
@@ -239,7 +282,7 @@ def build_decoder(spec: dict, kind: str, opts: Optional[dict] = None, fresh: boo
         return v
     from kaira.models.fec import decoders as D
 
-    enc = build_encoder(spec)
+    enc = build_encoder(spec, fresh=fresh)
     try:
         with contextlib.redirect_stdout(io.StringIO()):
             if kind == "syndrome":
